@@ -393,6 +393,7 @@ int driver_main(int argc, char **argv, Engine &e) {
     int workers = 16;
     bool log = false;
     double wall_cap = 0;
+    std::string cov_dump;
     for (int i = 1; i < argc; i++) {
         std::string a = argv[i];
         auto nx = [&]() -> std::string { return i + 1 < argc ? argv[++i] : ""; };
@@ -409,6 +410,7 @@ int driver_main(int argc, char **argv, Engine &e) {
         else if (a == "--known") known_path = nx();
         else if (a == "--replays") replay_dir = nx();
         else if (a == "--wall-cap") wall_cap = atof(nx().c_str());
+        else if (a == "--cov-dump") cov_dump = nx();
         else { fprintf(stderr, "unknown argument %s\n", a.c_str()); return 2; }
     }
     bool thorough = tier == "thorough";
@@ -642,6 +644,10 @@ int driver_main(int argc, char **argv, Engine &e) {
     }
     double wall = now_s() - t_start;
 
+    if (!cov_dump.empty()) {
+        FILE *cf = fopen(cov_dump.c_str(), "w");
+        if (cf) { for (uint64_t pc : cov_uncovered_pcs_in_entered_functions()) fprintf(cf, "0x%llx\n", (unsigned long long)pc); fclose(cf); }
+    }
     // ------------------------------------------------------------ evidence
     if (!evidence.empty()) {
         std::string dir = evidence.substr(0, evidence.rfind('/'));
